@@ -793,6 +793,7 @@ fn oracles_for(prop: &str) -> Oracles {
         "C06" => Oracles { semantics: true, refused_no_trace: true, restart_epilogue: true, ..Default::default() },
         "C11" => Oracles { semantics: true, journal: true, ..Default::default() },
         "C15" => Oracles { cache: true, ..Default::default() },
+        "C07" => Oracles { semantics: true, ..Default::default() },
         _ => Oracles { panics_only: true, ..Default::default() },
     }
 }
@@ -800,7 +801,23 @@ fn oracles_for(prop: &str) -> Oracles {
 fn seqx_replay(prop: &str, r: &Value) -> i32 {
     let hist: Vec<crate::model::Op> = r["history"].as_array().unwrap().iter().map(seqx::op_from_json).collect();
     let cfg = seqx::cfg_from_json(&r["cfg"]);
-    let mut s = spec(prop, Alpha::Legal, 0, vec![cfg], oracles_for(prop), 60);
+    // the oracle switches of the phase that found the case (older files: by property)
+    let o = match r["oracles"].as_object() {
+        Some(m) => {
+            let b = |k: &str| m.get(k).and_then(|v| v.as_bool()).unwrap_or(false);
+            Oracles {
+                semantics: b("semantics"),
+                journal: b("journal"),
+                restart_epilogue: b("restart_epilogue"),
+                refused_no_trace: b("refused_no_trace"),
+                cache: b("cache"),
+                panics_only: b("panics_only"),
+                drain_each: b("drain_each"),
+            }
+        }
+        None => oracles_for(prop),
+    };
+    let mut s = spec(prop, Alpha::Legal, 0, vec![cfg], o, 60);
     s.reopen_cfgs = r["reopen_cfgs"].as_array().map(|a| a.iter().map(seqx::cfg_from_json).collect()).unwrap_or_default();
     let stats = seqx::SeqStats::default();
     match seqx::run(&s, &hist, &cfg, &stats) {
